@@ -167,6 +167,9 @@ def solve_journal(path, ob):
     return cex
 
 
+FAILFAST = bool(os.environ.get('VERIF_FAILFAST'))
+
+
 def run_pool(obs, scratch, env, nworkers=None, progress=None):
     nworkers = nworkers or NWORKERS
     q = queue.Queue()
@@ -189,6 +192,13 @@ def run_pool(obs, scratch, env, nworkers=None, progress=None):
                 results.append(r)
                 if progress:
                     progress(r, len(results), len(obs))
+                if FAILFAST and r.get('verdict') in ('counterexample', 'crash', 'error'):
+                    # seed-matrix mode only: the remaining obligations are skipped once something fails
+                    try:
+                        while True:
+                            q.get_nowait()
+                    except queue.Empty:
+                        pass
         w.close()
     ths = [threading.Thread(target=loop) for _ in range(min(nworkers, max(1, len(obs))))]
     for t in ths:
